@@ -50,7 +50,7 @@ impl WireType for Eth {
     type R = EthernetRepr;
     const NAME: &'static str = "ethernet";
     fn gen(r: &mut Rng, _t: &str) -> EthernetRepr {
-        EthernetRepr { src_addr: EthernetAddress(gen_mac(r)), dst_addr: EthernetAddress(gen_mac(r)), ethertype: EthernetProtocol::from(gen_u16(r)) }
+        EthernetRepr { src_addr: EthernetAddress(gen_mac(r)), dst_addr: EthernetAddress(gen_mac(r)), ethertype: draw::<EthernetProtocol>(r) }
     }
     fn buffer_len(x: &EthernetRepr) -> usize {
         x.buffer_len()
@@ -73,7 +73,7 @@ impl WireType for Arp {
     const NAME: &'static str = "arp";
     fn gen(r: &mut Rng, _t: &str) -> ArpRepr {
         ArpRepr::EthernetIpv4 {
-            operation: ArpOperation::from(*r.pick(&[1u16, 2, 0, 3, 0xffff])),
+            operation: draw::<ArpOperation>(r),
             source_hardware_addr: EthernetAddress(gen_mac(r)),
             source_protocol_addr: v4(&gen_ipv4(r)),
             target_hardware_addr: EthernetAddress(gen_mac(r)),
@@ -101,7 +101,7 @@ impl WireType for Ip4 {
     const NAME: &'static str = "ipv4";
     fn gen(r: &mut Rng, tier: &str) -> Ipv4Repr {
         // payload_len <= 65515: the total length field has 16 bits
-        Ipv4Repr { src_addr: v4(&gen_ipv4(r)), dst_addr: v4(&gen_ipv4(r)), next_header: IpProtocol::from(gen_u8(r)), payload_len: gen_payload_len(r, tier, 65515), hop_limit: gen_u8(r) }
+        Ipv4Repr { src_addr: v4(&gen_ipv4(r)), dst_addr: v4(&gen_ipv4(r)), next_header: draw::<IpProtocol>(r), payload_len: gen_payload_len(r, tier, 65515), hop_limit: gen_u8(r) }
     }
     fn buffer_len(x: &Ipv4Repr) -> usize {
         x.buffer_len()
@@ -124,7 +124,7 @@ impl WireType for Ip6 {
     type R = Ipv6Repr;
     const NAME: &'static str = "ipv6";
     fn gen(r: &mut Rng, tier: &str) -> Ipv6Repr {
-        Ipv6Repr { src_addr: v6(&gen_ipv6(r)), dst_addr: v6(&gen_ipv6(r)), next_header: IpProtocol::from(gen_u8(r)), payload_len: gen_payload_len(r, tier, 65535), hop_limit: gen_u8(r) }
+        Ipv6Repr { src_addr: v6(&gen_ipv6(r)), dst_addr: v6(&gen_ipv6(r)), next_header: draw::<IpProtocol>(r), payload_len: gen_payload_len(r, tier, 65535), hop_limit: gen_u8(r) }
     }
     fn buffer_len(x: &Ipv6Repr) -> usize {
         x.buffer_len()
@@ -430,7 +430,7 @@ impl WireType for V6Ext {
     fn gen(r: &mut Rng, _t: &str) -> V6ExtR {
         // `length` counts 8-octet units beyond the first 8 octets; data = the 6 + 8*length octets after the two header octets
         let length = r.below(5) as u8;
-        V6ExtR { nh: gen_u8(r), length, data: payload_like(6 + 8 * length as usize) }
+        V6ExtR { nh: draw_raw::<IpProtocol>(r) as u8, length, data: payload_like(6 + 8 * length as usize) }
     }
     fn buffer_len(_x: &V6ExtR) -> usize {
         2
@@ -439,7 +439,7 @@ impl WireType for V6Ext {
         x.data.clone()
     }
     fn emit(x: &V6ExtR, b: &mut [u8]) {
-        Ipv6ExtHeaderRepr { next_header: IpProtocol::from(x.nh), length: x.length, data: &x.data }.emit(&mut Ipv6ExtHeader::new_unchecked(b))
+        Ipv6ExtHeaderRepr { next_header: of_raw::<IpProtocol>((x.nh) as u32), length: x.length, data: &x.data }.emit(&mut Ipv6ExtHeader::new_unchecked(b))
     }
     fn parse(b: &[u8], _c: &V6ExtR) -> Option<V6ExtR> {
         let h = Ipv6ExtHeader::new_checked(b).ok()?;
@@ -467,8 +467,8 @@ impl V6Opt {
         f(match x {
             V6OptR::Pad1 => Ipv6OptionRepr::Pad1,
             V6OptR::PadN(n) => Ipv6OptionRepr::PadN(*n),
-            V6OptR::RouterAlert(v) => Ipv6OptionRepr::RouterAlert(Ipv6OptionRouterAlert::from(*v)),
-            V6OptR::Unknown(t, d) => Ipv6OptionRepr::Unknown { type_: Ipv6OptionType::from(*t), length: d.len() as u8, data: d },
+            V6OptR::RouterAlert(v) => Ipv6OptionRepr::RouterAlert(of_raw::<Ipv6OptionRouterAlert>((*v) as u32)),
+            V6OptR::Unknown(t, d) => Ipv6OptionRepr::Unknown { type_: of_raw::<Ipv6OptionType>((*t) as u32), length: d.len() as u8, data: d },
         })
     }
     fn from(r: &Ipv6OptionRepr) -> Option<V6OptR> {
@@ -489,7 +489,7 @@ impl V6Opt {
         match r.below(4) {
             0 => V6OptR::Pad1,
             1 => V6OptR::PadN(r.below(12) as u8),
-            2 => V6OptR::RouterAlert(*r.pick(&[0u16, 1, 2, 7, 0xffff])),
+            2 => V6OptR::RouterAlert(draw_raw::<Ipv6OptionRouterAlert>(r) as u16),
             _ => {
                 // option types without a dedicated variant (0 Pad1, 1 PadN, 5 RouterAlert are named; 0x63 is RPL)
                 let t = *r.pick(&[0x3eu8, 0x7e, 0xbe, 0xfe, 0x22, 0x63]);
@@ -537,8 +537,8 @@ impl V6Hbh {
             let or = match o {
                 V6OptR::Pad1 => Ipv6OptionRepr::Pad1,
                 V6OptR::PadN(n) => Ipv6OptionRepr::PadN(*n),
-                V6OptR::RouterAlert(v) => Ipv6OptionRepr::RouterAlert(Ipv6OptionRouterAlert::from(*v)),
-                V6OptR::Unknown(t, d) => Ipv6OptionRepr::Unknown { type_: Ipv6OptionType::from(*t), length: d.len() as u8, data: d },
+                V6OptR::RouterAlert(v) => Ipv6OptionRepr::RouterAlert(of_raw::<Ipv6OptionRouterAlert>((*v) as u32)),
+                V6OptR::Unknown(t, d) => Ipv6OptionRepr::Unknown { type_: of_raw::<Ipv6OptionType>((*t) as u32), length: d.len() as u8, data: d },
             };
             let _ = rep.options.push(or);
         }
@@ -650,7 +650,7 @@ impl NdOpt {
                 prefix: v6(prefix),
             }),
             NdOptR::Redirected { h_src, h_dst, h_nh, h_hop, data } => NdiscOptionRepr::RedirectedHeader(NdiscRedirectedHeader {
-                header: Ipv6Repr { src_addr: v6(h_src), dst_addr: v6(h_dst), next_header: IpProtocol::from(*h_nh), payload_len: data.len(), hop_limit: *h_hop },
+                header: Ipv6Repr { src_addr: v6(h_src), dst_addr: v6(h_dst), next_header: of_raw::<IpProtocol>((*h_nh) as u32), payload_len: data.len(), hop_limit: *h_hop },
                 data,
             }),
             NdOptR::Mtu(m) => NdiscOptionRepr::Mtu(*m),
@@ -686,7 +686,7 @@ impl NdOpt {
             3 => {
                 // the option length is counted in 8-octet units: 8 + 40 + data must be a multiple of 8
                 let n = 8 * r.below(5) as usize;
-                NdOptR::Redirected { h_src: gen_ipv6(r), h_dst: gen_ipv6(r), h_nh: gen_u8(r), h_hop: gen_u8(r), data: r.bytes(n) }
+                NdOptR::Redirected { h_src: gen_ipv6(r), h_dst: gen_ipv6(r), h_nh: draw_raw::<IpProtocol>(r) as u8, h_hop: gen_u8(r), data: r.bytes(n) }
             }
             4 => NdOptR::Mtu(gen_u32(r)),
             _ => {
@@ -901,7 +901,7 @@ impl WireType for MldRec {
         20
     }
     fn emit(x: &MldRecR, b: &mut [u8]) {
-        MldAddressRecordRepr { record_type: MldRecordType::from(x.ty), aux_data_len: x.aux, num_srcs: x.nsrc, mcast_addr: v6(&x.group), payload: &[] }.emit(&mut MldAddressRecord::new_unchecked(b))
+        MldAddressRecordRepr { record_type: of_raw::<MldRecordType>((x.ty) as u32), aux_data_len: x.aux, num_srcs: x.nsrc, mcast_addr: v6(&x.group), payload: &[] }.emit(&mut MldAddressRecord::new_unchecked(b))
     }
     fn parse(b: &[u8], _c: &MldRecR) -> Option<MldRecR> {
         let rec = MldAddressRecord::new_checked(b).ok()?;
@@ -944,7 +944,7 @@ pub struct Dhcp;
 impl Dhcp {
     fn with<T>(x: &DhcpR, f: impl FnOnce(DhcpRepr) -> T) -> T {
         let mut repr = DhcpRepr {
-            message_type: DhcpMessageType::from(x.mt),
+            message_type: of_raw::<DhcpMessageType>((x.mt) as u32),
             transaction_id: x.xid,
             secs: x.secs,
             client_hardware_address: EthernetAddress(x.chaddr),
@@ -1077,6 +1077,8 @@ impl WireType for I154 {
         // data / command frames with both addresses present (the combinations the interface emits);
         // with PAN-ID compression the source PAN is elided and parse reports it as None
         Ieee802154Repr {
+            // only the frame types whose addressing fields the crate lays out (others: known finding
+            // ieee802154-emit-single-layout); the numbers of all seven are checked by `wire-enums`
             frame_type: *r.pick(&[Ieee802154FrameType::Data, Ieee802154FrameType::MacCommand, Ieee802154FrameType::Beacon]),
             security_enabled: false,
             frame_pending: r.chance(1, 2),
@@ -1156,7 +1158,7 @@ impl WireType for NhcExt {
                 SixlowpanExtHeaderId::MobilityHeader,
                 SixlowpanExtHeaderId::Header,
             ]),
-            next_header: if r.chance(1, 2) { SixlowpanNextHeader::Compressed } else { SixlowpanNextHeader::Uncompressed(IpProtocol::from(gen_u8(r))) },
+            next_header: if r.chance(1, 2) { SixlowpanNextHeader::Compressed } else { SixlowpanNextHeader::Uncompressed(draw::<IpProtocol>(r)) },
             length: r.below(40) as u8,
         }
     }
